@@ -1,5 +1,152 @@
-"""C16: deterministic witnesses of open findings (filled in below)."""
+"""
+C16: deterministic witnesses of the open findings. Each builds the minimal document, applies the
+rename, recalculates everything and reports the finding's mechanism key while the defect is there;
+any *other* deviation is reported under a generic key (and is then an unlisted violation).
+"""
+from vlib import snapshot
+from vlib.client import EngineProc
+from props import C16_lib as L
+
+
+def _col(cid, typ, formula=None):
+  d = {'id': cid, 'type': typ, 'isFormula': formula is not None}
+  if formula is not None:
+    d['formula'] = formula
+  return d
+
+
+def _formulas(p):
+  S = snapshot.take(p)
+  n = L.Names(S)
+  return S, {(n.tname[n.cparent[c]], n.cname[c]): n.formula(c) for c in n.formula_cols()}
+
+
+def _recalc(p):
+  p.call('verif_py', 'props.C16_inproc', 'invalidate_all', None)
+  p.apply([['Calculate']])
+
+
+def _judge(acc, mech, what, got_text, want_text, vals_before, vals_after, detail):
+  """The witness fires under `mech` when the text is not the expected one or the values changed."""
+  acc.count('witness_runs')
+  bad = []
+  for k in sorted(want_text):
+    if got_text.get(k) != want_text[k]:
+      bad.append('formula %s.%s is %r, expected %r' % (k[0], k[1], got_text.get(k), want_text[k]))
+  if vals_before != vals_after:
+    bad.append('values %r -> %r' % (vals_before, vals_after))
+  if bad:
+    acc.violation(mech, 'witness %s: %s' % (what, '; '.join(bad)[:700]), detail)
+
+
+def w_multiline_fstring(acc):
+  """An expression after a line break inside a multi-line f-string: the un-indentation of the literal
+  is one patch over the whole literal, so positions inside it map back wrongly and the rename
+  patches land on the wrong characters."""
+  with EngineProc() as p:
+    p.init_doc()
+    p.apply([['AddTable', 'Tab', [_col('A', 'Text'), _col('F', 'Any', "f'''{$A}\n{$A}-{rec.A}'''")]]])
+    p.apply([['BulkAddRecord', 'Tab', [None, None], {'A': ['x', 'y']}]])
+    v0 = snapshot.take(p)['Tab'][1]['F']
+    r, err = p.try_apply([['RenameColumn', 'Tab', 'A', 'Bee']])
+    if err:
+      acc.count('witness_runs')
+      acc.violation('multiline_fstring_positions', 'witness: RenameColumn raised %s' % err.text[:200], None)
+      return
+    _recalc(p)
+    S, f = _formulas(p)
+    _judge(acc, 'multiline_fstring_positions', "RenameColumn Tab A Bee with F = f'''{$A}\\n{$A}-{rec.A}'''", f,
+           {('Tab', 'F'): "f'''{$Bee}\n{$Bee}-{rec.Bee}'''"}, v0, S['Tab'][1]['F'], {'formulas': {'%s.%s' % k: v for k, v in f.items()}})
+
+
+def w_comprehension_reflist(acc):
+  """A comprehension over a RefList column or over $group: the loop variable is not inferred to be a
+  record of the table, so `x.N` is not rewritten and fails with AttributeError at the next evaluation."""
+  with EngineProc() as p:
+    p.init_doc()
+    p.apply([['AddTable', 'Tab', [_col('K', 'Text'), _col('N', 'Int'), _col('L', 'RefList:Tab'),
+                                  _col('F', 'Any', 'sum(x.N for x in $L)')]]])
+    p.apply([['BulkAddRecord', 'Tab', [None] * 3, {'K': ['x', 'y', 'x'], 'N': [1, 2, 3], 'L': [['L', 2, 3], None, ['L', 1]]}]])
+    p.apply([['CreateViewSection', 1, 0, 'record', [2], None]])
+    p.apply([['AddColumn', 'Tab_summary_K', 'tot', {'type': 'Any', 'isFormula': True, 'formula': 'sum(r.N for r in $group)'}]])
+    S0 = snapshot.take(p)
+    v0 = (S0['Tab'][1]['F'], S0['Tab_summary_K'][1]['tot'])
+    p.apply([['RenameColumn', 'Tab', 'N', 'Num']])
+    _recalc(p)
+    S, f = _formulas(p)
+    _judge(acc, 'comprehension_over_reference_list', 'RenameColumn Tab N Num with sum(x.N for x in $L) and sum(r.N for r in $group)', f,
+           {('Tab', 'F'): 'sum(x.Num for x in $L)', ('Tab_summary_K', 'tot'): 'sum(r.Num for r in $group)'},
+           v0, (S['Tab'][1]['F'], S['Tab_summary_K'][1]['tot']), None)
+
+
+def w_table_named_like_function(acc):
+  """A Ref column pointing at a table whose id is also a name exported by `functions` (T, N, SUM, ...):
+  the inference helper takes the first binding of the name in the module, which is the function."""
+  with EngineProc() as p:
+    p.init_doc()
+    p.apply([['AddTable', 'T', [_col('V', 'Int')]]])
+    p.apply([['BulkAddRecord', 'T', [None, None], {'V': [1, 2]}]])
+    p.apply([['AddTable', 'U', [_col('R', 'Ref:T'), _col('F', 'Any', '$R.V')]]])
+    p.apply([['BulkAddRecord', 'U', [None, None], {'R': [1, 2]}]])
+    v0 = snapshot.take(p)['U'][1]['F']
+    p.apply([['RenameColumn', 'T', 'V', 'Num']])
+    _recalc(p)
+    S, f = _formulas(p)
+    _judge(acc, 'ref_to_table_named_like_function', 'RenameColumn T V Num with U.R = Ref:T and U.F = $R.V', f,
+           {('U', 'F'): '$R.Num'}, v0, S['U'][1]['F'], None)
+
+
+def w_sort_by(acc):
+  """The legacy sort_by= argument of lookupRecords/lookupOne is not followed by renames (only order_by
+  is); the formula keeps its cached result until its next evaluation, which raises KeyError."""
+  with EngineProc() as p:
+    p.init_doc()
+    p.apply([['AddTable', 'Tab', [_col('K', 'Text'), _col('V', 'Int'),
+                                  _col('F', 'Any', '[r.id for r in Tab.lookupRecords(K=$K, sort_by="-V")]')]]])
+    p.apply([['BulkAddRecord', 'Tab', [None] * 3, {'K': ['x', 'y', 'x'], 'V': [1, 2, 3]}]])
+    p.apply([['RenameColumn', 'Tab', 'V', 'Num']])
+    p.apply([['UpdateRecord', 'Tab', 2, {'K': 'x'}]])      # makes the lookup evaluate again
+    S, f = _formulas(p)
+    rows = snapshot.rows_of(S, 'Tab')
+    _judge(acc, 'legacy_sort_by_not_renamed', 'RenameColumn Tab V Num with lookupRecords(K=$K, sort_by="-V"), then an edit of K', f,
+           {('Tab', 'F'): '[r.id for r in Tab.lookupRecords(K=$K, sort_by="-Num")]'},
+           ['L', 3.0, 2.0, 1.0], rows[1]['F'], None)
+
+
+def w_stale_record_relation(acc):
+  """B (type Any) = $R holds Record objects; RenameTable copies the cells to the new table; B is
+  recomputed, but an equal record is not stored again, so the old object with its relation to the old
+  table id stays, and every formula reading a field through B fails an internal assertion."""
+  with EngineProc() as p:
+    p.init_doc()
+    p.apply([['AddTable', 'A', [_col('D', 'Int')]]])
+    p.apply([['BulkAddRecord', 'A', [None, None], {'D': [5, 6]}]])
+    p.apply([['AddTable', 'P', [_col('R', 'Ref:A'), _col('B', 'Any', '$R'), _col('C', 'Any', '$B.D')]]])
+    p.apply([['BulkAddRecord', 'P', [None, None], {'R': [1, 2]}]])
+    v0 = snapshot.take(p)['P'][1]['C']
+    p.apply([['RenameTable', 'P', 'Q']])
+    S, f = _formulas(p)
+    _judge(acc, 'stale_record_relation_after_table_rename', 'RenameTable P Q with B = $R (type Any) and C = $B.D', f,
+           {('Q', 'B'): '$R', ('Q', 'C'): '$B.D'}, v0, S['Q'][1]['C'], None)
+
+
+def w_table_id_shadows_function(acc):
+  """Table ids share the namespace of the generated module with the formula functions: a table renamed
+  to SUM hides SUM() from every formula of the document."""
+  with EngineProc() as p:
+    p.init_doc()
+    p.apply([['AddTable', 'A', [_col('D', 'Int'), _col('F', 'Any', 'SUM([$D, 1])')]]])
+    p.apply([['BulkAddRecord', 'A', [None, None], {'D': [5, 6]}]])
+    p.apply([['AddTable', 'B', [_col('E', 'Int')]]])
+    v0 = snapshot.take(p)['A'][1]['F']
+    r = p.apply([['RenameTable', 'B', 'SUM']])
+    _recalc(p)
+    S, f = _formulas(p)
+    _judge(acc, 'table_id_shadows_formula_function', 'RenameTable B SUM (accepted as %r) with A.F = SUM([$D, 1])' % (r.ret,), f,
+           {('A', 'F'): 'SUM([$D, 1])'}, v0, S['A'][1]['F'], None)
 
 
 def run(acc):
-  acc.count('witness_runs')
+  for fn in (w_multiline_fstring, w_comprehension_reflist, w_table_named_like_function, w_sort_by, w_stale_record_relation,
+             w_table_id_shadows_function):
+    fn(acc)
